@@ -14,7 +14,7 @@ CLAIMED = {
          "library's own copies, and yields success or a negative code. PARTIAL: machine-level undefined behaviour below the model (misaligned "
          "typed loads, aliasing) is only observed by ASan/UBSan in the correspondence runs (exhaustive lengths 0..2, every truncation and "
          "length/count perturbation of structured frames, mutation)."
-         " Code level (tie #1 for control flow): c01_code_rsn_info_safe / c01_code_wpa_info_safe - the element decoders AS TRANSLATED from the C text of this run, with only the element readable, never get stuck (no load outside, no signed overflow) and every memcpy source lies inside the element.",
+         " Code level (tie #1 for control flow): c01_code_rsn_info_safe / c01_code_wpa_info_safe - the element decoders AS TRANSLATED from the C text of this run, with only the element readable, never get stuck (no load outside, no signed overflow) and every memcpy source lies inside the element. Also c01_code_parse_data(_refines_model) (the data parser on every frame object) and c01_code_get_wpa_data_safe (the declared Key Data Length is clamped to 1024 and to what the body carries).",
          "Rocq safety corollaries of read-oracle refinement proofs; sanitizer-instrumented differential correspondence; theorems about the C bodies translated from the source on every run (Gen/Sites.v)"),
  "C02": ("Theorems c02_classify_plain / c02_classify_radiotap: for every byte string the classifier returns exactly the Spec's slices "
          "(radiotap length and FCS flag as decoded, frame control, header implied by type/subtype/order, body), c02_accept_iff, c02_layout "
@@ -40,7 +40,7 @@ CLAIMED = {
          "inside its own copies; c04_other_subtype_refused; c04_flag_independent; six round-trip theorems: for all generator arguments and any "
          "neutral appended tags, classifying and parsing the generator's byte layout returns the arguments. All nine parsers are run on "
          "generator-layout, crafted, truncated and radiotap/FCS-wrapped frames and compared field by field."
-         " Code level: c04_code_parse_<9> - the parsers as translated refuse exactly on wrong type / subtype / too short, allocate once and copy exactly the bytes that follow the fixed parameters, reading only inside the body.",
+         " Code level: c04_code_parse_<9> - the parsers as translated refuse exactly on wrong type / subtype / too short, allocate once and copy exactly the bytes that follow the fixed parameters, reading only inside the body. c04_code_handle_ssid_tag - the SSID handler clears the 33-octet field, copies min(len, 32) octets, hidden exactly when empty or all zero.",
          "Rocq refinement + round-trip proofs; differential correspondence; theorems about the C bodies translated from the source on every run (Gen/Sites.v)"),
  "C05": ("Theorems c05_inv (every history of any length keeps the stored bytes a well-formed element sequence with the recorded length), "
          "c05_step_refines / c05_step_refines_total (add/remove/set/check agree with the reference list for EVERY list - the reference is "
@@ -62,7 +62,7 @@ CLAIMED = {
          "too short for their counts are refused, every read inside the element), c08_bss_exact (the four BSS parsers report exactly the "
          "Spec's summary incl. the WEP and WPS rules). Compared with the library on every single-suite element (256 selectors x kinds x "
          "lists x OUIs), count/suite mismatches, truncation at every byte and random combinations."
-         " Code level: c08_code_rsn_info_return_refines_model / _wpa_ - the value returned by the translated decoders is the model's for every element.",
+         " Code level: c08_code_rsn_info_return_refines_model / _wpa_ - the value returned by the translated decoders is the model's for every element. c08_code_enumerate_<rsn,wpa>_(equal|differ|refines_model) and c08_code_*_cases_match - the enumeration routines for every count, their six switches equal the model's tables; c08_code_bss_handle_rsn_tag / _msft_tag.",
          "Rocq refinement proofs + 256-selector table sweeps over translator-regenerated switch tables; theorems about the C bodies translated from the source on every run (Gen/Sites.v)"),
  "C09": ("Theorems c09_total (every byte string, any chain of present words / namespaces / vendor data: the decoder terminates in bounds), "
          "c09_refused (bad version, it_len < 8, > available, > 255), c09_length, c09_single_word (ALL 2^23 selections of the defined fields, all "
@@ -93,7 +93,7 @@ CLAIMED = {
          "c12_classified_ok: on every classified frame the EAPOL routines (offsets, switch table and cap re-read from the source) return "
          "exactly the big-endian fields at the standard offsets and the key data limited by declared length, cap and bytes present, with "
          "every body read inside the library's copy. Compared with the library on key-information sweeps and length grids."
-         " Code level: c12_code_check_wpa_handshake(_refines_model), c12_code_get_wpa_data_safe / _refines_model ... - the translated EAPOL routines read only the body and equal the model.",
+         " Code level: c12_code_check_wpa_handshake(_refines_model), c12_code_get_wpa_data_safe / _refines_model ... - the translated EAPOL routines read only the body and equal the model. c12_code_get_wpa_message_string(_model).",
          "Rocq refinement proofs over a read-oracle model; differential correspondence; theorems about the C bodies translated from the source on every run (Gen/Sites.v)"),
  "C13": ("Theorems c13_*_env_independent: classification, radiotap decode, tag iteration, CRC and FCS verification give the same result for "
          "ALL contents of memory beyond the buffer (read oracle arbitrary outside); parsers of a classified frame are functions of the "
@@ -108,7 +108,7 @@ CLAIMED = {
          "release routines no block is live. The skeleton's allocation trace (sizes, order, which block) is compared event by event with "
          "the --wrap ledger of the library. PARTIAL: the allocator "
          "and ASan's detection are trusted."
-         " Code level: c14_code_add_action_detail / c14_code_free_action_detail - allocation and release arithmetic of the translated routines for all lengths.",
+         " Code level: c14_code_add_action_detail / c14_code_free_action_detail - allocation and release arithmetic of the translated routines for all lengths. c14_code_release_all (each of the 18 release routines frees exactly its owning members, once) and c14_code_lifecycle_<9 pairs> / _owner theorems: what a creating routine allocated and did not release itself is exactly what the release routine frees.",
          "Rocq invariant-by-induction over allocation skeletons; trace-level differential correspondence; theorems about the C bodies translated from the source on every run (Gen/Sites.v)"),
  "C15": ("Theorems c15_add_reported (a tag is reported stored iff stored; a failed add changes nothing and is -ENOMEM), c15_remove_safe, "
          "c15_set_atomic (a failed setter leaves the stored list exactly as it was), c15_detail_reported, "
@@ -138,8 +138,8 @@ CLAIMED = {
  "C19": ("Theorems c19_values / c19_distinct (every published enumerator of ten enumerations, as compiled and re-read on every run, equals the "
          "independently transcribed IEEE value; no two names of one kind share a number) and c19_lookup (for every integer the lookup is the "
          "published identifier or the unknown-tag string) over the switch table re-translated from the source; the real lookup is compared "
-         "on -1024..1024, boundaries, random ints (quick) and all 2^32 ints (thorough).",
-         "Rocq table-equality sweeps lifted to all integers; translator-regenerated tables"),
+         "on -1024..1024, boundaries, random ints (quick) and all 2^32 ints (thorough). Code level: c19_code_get_tag_name(_env) / _never_stuck / _labels_distinct - the routine translated statement by statement IS one switch over that table (nothing before or after it) and returns the model's literal for every int.",
+         "Rocq table-equality sweeps lifted to all integers; translator-regenerated tables; theorems about the C bodies translated from the source on every run (Gen/Sites.v)"),
  "C20": ("Theorems c20_defined / c20_monotone / c20_unit for all clock readings in range about the return expression of libwifi_get_epoch "
          "as re-translated from the source on every run; the extracted model is run against the real function under an injected clock on a "
          "boundary grid and random pairs, and the timestamp bytes of generated beacons/probe responses/timing advertisements are compared."
